@@ -42,8 +42,7 @@ Print Assumptions C11_calc2_via_completes_on_ctx.
 
 Theorem C11_calc2_via_result : forall id c s ns sa sb i o cx st tr oc hit,
   leafev (via id c s) (ONode ns sa sb) i o cx = (st, tr, Some oc, hit) ->
-  i = id /\ ph ns <> PFirst /\ st = OFin /\
-  tr = TSchedDtor c :: dtor_ev (held BFinally (saved ns) (cell ns)) /\   (* [stage 6] the hop's operation, then s's stored result *)
+  i = id /\ ph ns <> PFirst /\ st = OFin /\ tr = [TSchedDtor c] /\
   exists seen, sb = OLeaf false seen /\
     (seen = true -> oc = ODone) /\
     (seen = false -> saved ns = Some oc \/ (saved ns = None /\ oc = OVal 0)).
@@ -122,10 +121,8 @@ Theorem C11_calc2_thrown_store_is_error : forall v,
      a_done BFinally a b ns sa tra (OValT v) cx r0a r0bl =
      let '(sb, trb, rb) := start b (n_env ns) cx in
      match rb with
-     | None => (ONode (ns_set_cell (ns_set_saved (ns_set_ph ns PSecond) (Some (OErr tcode))) None) OFin sb,
-                (tra ++ dtor1 (Some (SFinE, tcode)) a sa) ++ trb, None)
-     | Some ob => seq_final BFinally (Some (SFinE, tcode)) b sb ((tra ++ dtor1 (Some (SFinE, tcode)) a sa) ++ trb)
-                            (after_second BFinally (Some (OErr tcode)) ob)
+     | None => (ONode (ns_set_saved (ns_set_ph ns PSecond) (Some (OErr tcode))) OFin sb, (tra ++ dtor a sa) ++ trb, None)
+     | Some ob => seq_final BFinally b sb ((tra ++ dtor a sa) ++ trb) (after_second BFinally (Some (OErr tcode)) ob)
      end) /\
   (forall w, after_second BFinally (Some (OErr tcode)) (OVal w) = OErr tcode) /\
   (forall a b ns sa tra cx r0a r0bl,
@@ -143,10 +140,8 @@ Theorem C11_calc2_finally_thrown_runs_completion : forall a b ns sa sb id o cx s
   leafev (Bin BFinally a b) (ONode ns sa sb) id o cx =
   (let '(sb', trb, rb) := start b (n_env ns) cx in
    match rb with
-   | None => (ONode (ns_set_cell (ns_set_saved (ns_set_ph ns PSecond) (Some (OErr tcode))) None) OFin sb',
-              (tra ++ dtor1 (Some (SFinE, tcode)) a sa') ++ trb, None)
-   | Some ob => seq_final BFinally (Some (SFinE, tcode)) b sb' ((tra ++ dtor1 (Some (SFinE, tcode)) a sa') ++ trb)
-                          (after_second BFinally (Some (OErr tcode)) ob)
+   | None => (ONode (ns_set_saved (ns_set_ph ns PSecond) (Some (OErr tcode))) OFin sb', (tra ++ dtor a sa') ++ trb, None)
+   | Some ob => seq_final BFinally b sb' ((tra ++ dtor a sa') ++ trb) (after_second BFinally (Some (OErr tcode)) ob)
    end, hit).
 Proof. exact finally_thrown_runs_completion. Qed.
 Print Assumptions C11_calc2_finally_thrown_runs_completion.
@@ -160,10 +155,10 @@ Example C11_calc2_ex :
   (* leaf 1 starts on context 1 (the on's scheduler) with get_scheduler = 1; the root completes on 2 although
      the last leaf completed on context 4 *)
   r_tr (exec ex false [EvLeaf 0 (OVal 5) 3; EvRun 1; EvLeaf 1 (OVal 7) 4; EvRun 2]) =
-    [XT (TLeafStart 0 false true 0 0 0 0); XT (TSchedStart 101 1); XT (TValCtor SAll 5);
-     XT (TSchedDtor 1); XT (TLeafStart 1 false true 7 0 1 1); XT (TValCtor SAll 7); XT (TValCtor SFinV 162);
-     XT (TLeafDtor 0); XT (TLeafDtor 1); XT (TValDtor SAll 5); XT (TValDtor SAll 7); XT (TSchedStart 100 2);
-     XT (TSchedDtor 2); XT (TValDtor SFinV 162); XRoot (OVal 162) 0 2; XRootDtor] /\
+    [XT (TLeafStart 0 false true 0 0 0 0); XT (TSchedStart 101 1);
+     XT (TSchedDtor 1); XT (TLeafStart 1 false true 7 0 1 1);
+     XT (TLeafDtor 0); XT (TLeafDtor 1); XT (TSchedStart 100 2);
+     XT (TSchedDtor 2); XRoot (OVal 162) 0 2; XRootDtor] /\
   (* stop requested (on context 5) before via's item ran: the hop completes with done, still on context 2 *)
   r_tr (exec ex false [EvRun 1; EvStop 5; EvLeaf 0 (OErr 5) 3; EvRun 2]) =
     [XT (TLeafStart 0 false true 0 0 0 0); XT (TSchedStart 101 1);
@@ -174,14 +169,14 @@ Example C11_calc2_ex :
   (* with_scheduler_affinity: the hop back is unstoppable, the value arrives on the receiver's context 0 *)
   r_tr (exec (wsa_via 100 0 (on 101 1 (Leaf 1))) false [EvRun 1; EvStop 3; EvLeaf 1 (OVal 7) 4; EvRun 0]) =
     [XT (TSchedStart 101 1); XT (TSchedDtor 1);
-     XT (TLeafStart 1 false true 0 0 1 1); XT (TLeafStop 1); XT (TValCtor SFinV 7);
+     XT (TLeafStart 1 false true 0 0 1 1); XT (TLeafStop 1);
      XT (TLeafDtor 1); XT (TSchedStart 100 0);
-     XT (TSchedDtor 0); XT (TValDtor SFinV 7); XRoot (OVal 7) 0 0; XRootDtor] /\
+     XT (TSchedDtor 0); XRoot (OVal 7) 0 0; XRootDtor] /\
   (* a throwing value (L0:t5 on context 3): via still hops to context 2 and completes there with error 77;
      under when_all the sibling is stopped and the root completes with the error *)
   r_tr (exec (via 100 2 (Leaf 0)) false [EvLeaf 0 (OValT 5) 3; EvRun 2]) =
-    [XT (TLeafStart 0 false true 0 0 0 0); XT (TValCtor SFinE 77); XT (TLeafDtor 0); XT (TSchedStart 100 2); XT (TSchedDtor 2);
-     XT (TValDtor SFinE 77); XRoot (OErr 77) 0 2; XRootDtor] /\
+    [XT (TLeafStart 0 false true 0 0 0 0); XT (TLeafDtor 0); XT (TSchedStart 100 2); XT (TSchedDtor 2);
+     XRoot (OErr 77) 0 2; XRootDtor] /\
   r_tr (exec (Bin BWhenAll (Leaf 0) (LeafN 1)) false [EvLeaf 0 (OValT 5) 3]) =
     [XT (TLeafStart 0 false true 0 0 0 0); XT (TLeafStart 1 false true 0 0 0 0); XT (TLeafStop 1);
      XRoot (OErr 77) 0 3; XRootDtor; XT (TLeafDtor 0); XT (TLeafDtor 1)].
